@@ -2,12 +2,17 @@ import LunaVerif.Core.Proto
 import LunaVerif.Model.Device.Frame
 open LunaVerif LunaVerif.Proto LunaVerif.Frame
 
-/-- config line: `#` (none); input line: `rx_active rx_valid rx_data line_state connect` (the last two
-are driven into the real device but do not influence the frame registers; the device address stays 0
-because the DUT has no control endpoint); output line: `frame_number microframe_number new_frame sof_detected`. -/
+/-- config line: `#` (none); input line:
+`rx_active rx_valid rx_data line_state connect session_end address_changed new_address bus_reset`
+(`line_state`, `connect`, `session_end` are driven into the real device, where they steer the reset sequencer;
+`bus_reset` is the value of the device's `reset_detected` port OBSERVED in that cycle on the real gateware and fed
+to the model as an input — the reset sequencer itself is C19's subject; `address_changed` / `new_address` are driven
+through a stub endpoint); output line:
+`frame_number microframe_number new_frame sof_detected active_address`. -/
 def main : IO Unit :=
-  runDriver (σ := DevState)
-    (fun _ => devInit)
+  runDriver (σ := DState)
+    (fun _ => dInit)
     (fun s i =>
-      let (s', o) := devStep s ⟨n2b (fld i 0), n2b (fld i 1), fld i 2⟩ 0
-      (s', [o.frameNumber, o.microframe, b2n o.newFrame, b2n o.sofDetected]))
+      let (s', o) := dStep s ⟨⟨n2b (fld i 0), n2b (fld i 1), fld i 2⟩, n2b (fld i 8), n2b (fld i 6), fld i 7⟩
+      (s', [o.ports.frameNumber, o.ports.microframe, b2n o.ports.newFrame, b2n o.ports.sofDetected,
+            o.activeAddress]))
